@@ -424,3 +424,164 @@ class Subset(Family):
 
     def nontrivial(self, case):
         return 0 in case["lengths"]
+
+
+@register
+class PaddedMatrix(Family):
+    """RaggedArray.as_padded_matrix(fill_value, side): an (n_rows, W) matrix, W the longest row; right: row r holds its L(r) cells and then fill values,
+    left: fill values first and the row's cells at the end.  The real function runs on a freshly built array: the 2-D index matrix
+    starts[:, None] + arange(W), its clamp, ravel, the gather from the flat data, the positions to overwrite from RaggedView(...).get_flat_indices()
+    (callee contract), the scatter of the fill value and the final reshape.  Flat positions r * W + c are nonlinear terms left to the solver."""
+    name = "RaggedArray.as_padded_matrix"
+    qualname = "npstructures.raggedarray:RaggedArray._as_padded_matrix"
+    serves = ["C08"]
+    configs = ["int64"]
+    timeout_ms = 60000
+    assumed = ["callee contract view.get_flat_indices(): idx[S'(r)+c] = start(r) + c over the geometry of the view's lengths (proved: RaggedView.get_flat_indices)",
+               "numpy.max (witness form), broadcasting add of a column and a row vector, numpy.minimum, ravel / reshape of a 2-D array in C order "
+               "(flat = r * W + c), fancy gather / scatter (witness form)", "nonlinear integer arithmetic of the solver for r * W + c"]
+
+    def kinds(self):
+        return ["right", "left"]
+
+    def extra_functions(self):
+        return ["RaggedBase.ravel", "RaggedShape.starts", "RaggedShape.ends", "RaggedArray.__len__"]
+
+    def run(self, ctx, kind):
+        from .e2e import stub_flat_indices
+        from ..sym.arr import SElem, ElemSort
+        g = sym_ragged(ctx, kind="elem")
+        ctx.ghost["g"] = g
+        n, S, L, D = g.n, g.S, g.L, g.D.fn
+        ctx.assume(n > 0)                    # the padded matrix of an array without rows has no longest row (numpy.max of nothing is refused)
+        ctx.add_index(n, n - 1)
+        fill = z3.Const("fill", ElemSort)
+        cls, old, calls = stub_flat_indices(ctx)
+        from ..sym import symnp
+        from ..sym.arr import div_abstraction
+        real_max = symnp.SymNumpy.__dict__["max"]
+        st = {"calls": calls, "g": g, "side": kind}
+        ctx.ghost["pm"] = st
+
+        def max_hook(self_, x, *a, **k):
+            m = real_max(self_, x, *a, **k)
+            if isinstance(m, SInt) and "W" not in st:
+                st["W"] = m.t
+                # the width of the matrix: case split on "some row is non-empty"; products with / quotients by a positive width are kept in factored
+                # form (MUL(x) = x * W, DIV(a) = a // W, see sym.arr.div_abstraction) so that the obligations stay linear
+                if ctx.branch(m.t > 0, "some row is non-empty"):
+                    DIV, MUL = div_abstraction(ctx, m.t)
+                    st["DIV"], st["MUL"] = DIV, MUL
+                    ctx.assume_forall("MUL strictly increasing (adjacent by MUL.step and W > 0; lemma adjacent-sorted=>sorted applied to MUL(x) - x)",
+                                      lambda a_, b_: z3.Implies(a_ < b_, MUL(a_) + (b_ - a_) <= MUL(b_)), arity=2)
+            return m
+        symnp.SymNumpy.max = max_hook
+        try:
+            out = g.ra._as_padded_matrix(fill_value=SElem(fill), side=kind)
+        finally:
+            cls.get_flat_indices = old
+            symnp.SymNumpy.max = real_max
+        ok = isinstance(out, SymArr) and out.ndim == 2 and len(calls) == 1
+        ctx.prove("post.a matrix, filled through one get_flat_indices", z3.BoolVal(ok))
+        if not ok:
+            return
+        W = dim_term(out.shape_[1])
+        call = calls[0]
+        osh = call["shape"]
+        r0 = z3.Int("r0")
+        ctx.skolem(z3.And(0 <= r0, r0 < n))
+        ctx.prove("post.one matrix row per row, wide enough for every row", z3.And(dim_term(out.shape_[0]) == n, L(r0) <= W), pool=[r0, r0 + 1])
+        r, c = z3.Int("r"), z3.Int("c")
+        ctx.skolem(z3.And(0 <= r, r < n))
+        ctx.skolem(z3.And(0 <= c, c < W))
+        pad = W - L(r)
+        if kind == "right":
+            is_cell, src = c < L(r), S(r) + c
+            t = osh.S(r) + (c - L(r))                  # the overwritten cell's place in the list of positions to fill
+        else:
+            is_cell, src = c >= pad, S(r) + c - pad
+            t = osh.S(r) + c
+        MUL = st.get("MUL")
+        p = MUL(r) + c if MUL is not None else r * W + c
+        sc_ = ctx.ghost["scatters"][-1]
+        j = sc_["wit"](p)
+        rj = call["rowof"](j)
+        cj = j - osh.S(rj)
+        ctx.prove_then_assume("lemma: the fill view has one row per row with W - L(r) cells", z3.And(call["n"] == n, osh.L(r) == pad), pool=[r, r + 1])
+        ctx.prove_then_assume("lemma: a pad cell is in the list of positions to fill", z3.Implies(z3.Not(is_cell), z3.And(0 <= t, t < osh.S(osh.n), call["idx"].fn(t) == p)),
+                              pool=[r, r + 1, c, t, n, osh.n, c - L(r)])
+        hit = sc_["hit"](p)
+        ctx.prove_then_assume("lemma: a writer of r * W + c is a cell (rj, cj) of the fill view", z3.Implies(hit, z3.And(0 <= rj, rj < n, 0 <= cj, cj < osh.L(rj))),
+                              pool=[j, rj, rj + 1, p, n, osh.n])
+        ctx.prove_then_assume("lemma: ... in the same matrix row, among its pad cells", z3.Implies(hit, z3.And(rj == r, z3.Not(is_cell))),
+                              pool=[rj, rj + 1, cj, r, r + 1])
+        if MUL is not None:
+            dp = st["DIV"](p)
+            ctx.prove_then_assume("lemma: flat position r * W + c of the index matrix is its cell (r, c)", z3.And(dp == r, p - MUL(dp) == c),
+                                  pool=[p, r, r + 1, r - 1, dp, dp + 1, c])
+        ctx.prove_then_assume("lemma: a pad cell is overwritten", z3.Implies(z3.Not(is_cell), hit), pool=[r, t, z3.IntVal(0)])
+        ctx.prove_then_assume("lemma: a cell of the row lies in the flat data", z3.Implies(is_cell, z3.And(0 <= src, src <= S(n) - 1)), pool=[r, r + 1, n, c])
+        ctx.prove("post.cell (r, c): the row's own cell or the fill value", out.get(r, c) == z3.If(is_cell, D(src), fill),
+                  pool=[r, r + 1, c, p, t, j, rj, cj, n, n - 1, src] + ([st["DIV"](p), st["DIV"](p) + 1] if MUL is not None else []))
+        ctx.prove("post.operand not modified", z3.BoolVal(g.D.buf.writes == 0))
+
+    def late_lemmas(self, ctx, kind, exc):
+        """the two bounds checks cannot fail: the gather reads cells of the flat data (clamped to its last cell), the scatter writes cells of the matrix"""
+        st = ctx.ghost.get("pm")
+        if st is None or not isinstance(exc, IndexError) or not ctx.ghost.get("forall_facts") or "W" not in st:
+            return
+        g = st["g"]
+        n, S, L = g.n, g.S, g.L
+        W = st["W"]
+        w = ctx.ghost["forall_facts"][-1]["w"]
+        MUL, DIV = st.get("MUL"), st.get("DIV")
+        if MUL is None:
+            # no row has a cell: the matrix has no columns, nothing is read or written
+            ctx.prove_then_assume("late.lemma: without columns there is no index to check", z3.BoolVal(False), kind="lemma", pool=[w, n, z3.IntVal(0)])
+            return
+        wr = z3.Int("late_wr")
+        ctx.assume(z3.And(0 <= wr, wr < n, L(wr) == W))            # numpy.max is attained (its contract; restated with a name)
+        ctx.prove_then_assume("late.lemma: the data hold at least W cells", S(n) >= W, kind="lemma", pool=[wr, wr + 1, n])
+        if not st["calls"]:
+            q, c = z3.Int("late_q"), z3.Int("late_c")
+            ctx.assume(z3.And(q == DIV(w), c == w - MUL(q)))
+            ctx.prove_then_assume("late.lemma: the failing flat position is a cell (q, c) of the index matrix", z3.And(0 <= q, q < n, 0 <= c, c < W),
+                                  kind="lemma", pool=[w, q, q + 1, n, z3.IntVal(0), z3.IntVal(-1)])
+            ctx.prove_then_assume("late.lemma: the gather's bounds check cannot fail", z3.BoolVal(False), kind="lemma", pool=[w, q, q + 1, c, n, n - 1, z3.IntVal(0)])
+            return
+        call = st["calls"][-1]
+        osh = call["shape"]
+        rj, k = z3.Int("late_rj"), z3.Int("late_k")
+        ctx.assume(z3.And(rj == call["rowof"](w), k == w - osh.S(rj)))
+        ctx.prove_then_assume("late.lemma: the failing position is a pad cell (rj, k) of the fill view", z3.And(call["n"] == n, 0 <= rj, rj < n, 0 <= k, k < W - L(rj)),
+                              kind="lemma", pool=[w, rj, rj + 1])
+        ctx.prove_then_assume("late.lemma: the scatter's bounds check cannot fail", z3.BoolVal(False), kind="lemma", pool=[w, rj, rj + 1, k, n, z3.IntVal(0)])
+
+    def concretise(self, kind, model, ghost):
+        return {"lengths": [2, 0, 3, 1], "side": kind}
+
+    def concrete(self, case):
+        from npstructures import RaggedArray
+        ls, side = case["lengths"], case["side"]
+        if not ls:
+            return None
+        rows, v = [], 3
+        for l in ls:
+            rows.append([v + i for i in range(l)])
+            v += l
+        ra = RaggedArray(np.array([x for r in rows for x in r], dtype=np.int64), ls)
+        w = max(ls)
+        exp = [(r + [-7] * (w - len(r))) if side == "right" else ([-7] * (w - len(r)) + r) for r in rows]
+        try:
+            got = ra.as_padded_matrix(fill_value=-7, side=side)
+        except Exception as e:
+            return {"msg": f"as_padded_matrix(-7, {side!r}) of rows {rows} raised {type(e).__name__}: {e}", "sig": "raised:padded"}
+        if np.asarray(got).shape != (len(ls), w) or np.asarray(got).tolist() != exp:
+            return {"msg": f"as_padded_matrix(-7, {side!r}) of rows {rows}: {np.asarray(got).tolist()}, expected {exp}", "sig": "wrong:padded"}
+
+    def bounded_cases(self, tier, seed):
+        from ..bounded.common import length_vectors
+        for ls in length_vectors(4, 3):
+            if ls:
+                for side in ("right", "left"):
+                    yield {"lengths": ls, "side": side}
